@@ -22,6 +22,7 @@ func init() {
 			ruleLabelSetString(r)
 			ruleGroupEntries(r)
 			ruleLimit(r)
+			ruleMergeIter(r) // limit keeps the first records in time order: the merge that feeds the pipeline yields them in time order
 		},
 	})
 }
